@@ -185,14 +185,20 @@ theorem atomiccount_sum (c : Cfg) (k : Nat) (hk : k < c.ctr.length) (s : List Na
   rw [remaining_zero_of_done _ hd] at h
   omega
 
-/-- **atomic_ops_locked.**  Every operator of `Atomic<T>` (assignment, read, conversions, comparisons, unary minus,
-    pre/post increment and decrement, `+= -= *= /=`), run once on the instrumented library, takes the variable's
-    own mutex exactly once around its access and computes the value C++ gives; the list of operators is complete
-    (an operator dropped from the recording, or one that lost its `Lock`, breaks this obligation). -/
+/-- **atomic_ops_locked.**  Every operator of `Atomic<T>` (assignment from a value, read, conversions, comparisons, unary
+    minus, pre/post increment and decrement, `+= -= *= /=`), run once on the instrumented library, takes the variable's
+    own mutex exactly once around its access and computes the value C++ gives; copy assignment from another `Atomic`
+    reads the source under the SOURCE's mutex, releases it, and only then writes under its own (never both held: no lock
+    order, no deadlock with a concurrent `b = a` / `a = b`); copy construction reads the source under the source's mutex
+    and the new object's own mutex is usable at once (not a byte copy of a possibly locked one: 735352c).  The list of
+    operators is complete (an operator dropped from the recording, or one that lost its `Lock`, breaks this obligation). -/
 theorem atomic_ops_locked :
     atomicOps.map (·.name) = ["assign", "read", "conv", "not", "bool", "eq", "ne", "lt", "le", "gt", "ge", "neg",
-      "preinc", "postinc", "predec", "postdec", "add", "sub", "mul", "div"] ∧
-    ∀ op ∈ atomicOps, op.evs = [MEv.lock, MEv.unlock] ∧ op.value = op.expected := by decide
+      "preinc", "postinc", "predec", "postdec", "add", "sub", "mul", "div", "copyassign", "copyctor"] ∧
+    (∀ op ∈ atomicOps, op.name ≠ "copyassign" → op.name ≠ "copyctor" → op.evs = [MEv.lock, MEv.unlock]) ∧
+    (∀ op ∈ atomicOps, op.name = "copyassign" → op.evs = [MEv.lockSrc, MEv.unlockSrc, MEv.lock, MEv.unlock]) ∧
+    (∀ op ∈ atomicOps, op.name = "copyctor" → op.evs = [MEv.lockSrc, MEv.unlockSrc, MEv.ownMutex]) ∧
+    ∀ op ∈ atomicOps, op.value = op.expected := by decide
 
 /-- the hypothesis is not vacuous: with a read-then-write increment (what `atomicInc` is under
     `ASL_THREAD_UNSAFE`) two threads each adding 1 can end with 1 -/
@@ -276,6 +282,29 @@ theorem nested_alive_iff_handle (h : Heap) (hI : Inv h []) (o : Nat) :
   constructor
   · intro ha; rw [ha] at this; simpa using this.symm
   · intro ha; rw [ha] at this; simpa using this
+
+/-- **nested_destroyed_exactly_when_unreferenced.**  On every heap the harness can build and after every program: an object's
+    storage is allocated **iff** at least one handle — in a program variable or stored in a live object — points at it.
+    (`Inv` alone would admit a leaked object with count 0 and no handle; the positive-count invariant `Pos` excludes it:
+    the object is released by the very decrement that drops its last handle, not later and not never.) -/
+theorem nested_destroyed_exactly_when_unreferenced (descr : List (List Nat)) (roots : List Nat)
+    (hw : wfDescr descr roots = true) (ops : List Op) (o : Nat) :
+    let h := runOps true (build descr roots) ops
+    aliveAt h o = true ↔ 0 < handles h [] o := by
+  intro h
+  obtain ⟨a, b, _⟩ := AslProofs.RcNest.build_inv descr roots hw
+  have hI : Inv h [] := (AslProofs.RcNest.runOps_safe ops _ a b).2
+  have hP : AslProofs.RcNest.Pos h := AslProofs.RcNest.runOps_pos ops _ (AslProofs.RcNest.build_pos descr roots)
+  constructor
+  · intro ha
+    have := hI o
+    rw [ha] at this
+    have hp := hP o ha
+    simp only [if_true] at this
+    omega
+  · intro hp
+    obtain ⟨ob, ho, hal, _⟩ := AslProofs.RcNest.alive_of_handles_pos h [] hI o hp
+    unfold aliveAt; simp [ho, hal]
 
 /-- the order the containers had before their repair (release, then read the source): `a = a[0].kids` on a
     one-element tree reads the source handle from the block just released.  (Reproduced on the real
